@@ -252,6 +252,14 @@ type bcfg struct {
 	L0, Remote, Batch, T1, T2 int64
 }
 
+// a height above the first target (the first target itself when the remotes have no more)
+func above(b bcfg, rng *rand.Rand) int64 {
+	if b.Remote <= b.T1 {
+		return b.T1
+	}
+	return b.T1 + 1 + rng.Int63n(b.Remote-b.T1)
+}
+
 func derive(b bcfg, tag string, pts []pt, full bool, rng *rand.Rand) []Scenario {
 	var out []Scenario
 	mk := func(class, name string, rules []Rule, start []Act) {
@@ -322,7 +330,7 @@ func derive(b bcfg, tag string, pts []pt, full bool, rng *rand.Rand) []Scenario 
 			x := Rule{Kind: p.Kind, H: p.H, Nth: p.Nth}
 			switch rng.Intn(6) {
 			case 0:
-				x.Acts = []Act{{Op: "add", H: b.T1 + 1 + rng.Int63n(b.Remote-b.T1)}}
+				x.Acts = []Act{{Op: "add", H: above(b, rng)}}
 			case 1:
 				x.Acts = []Act{{Op: "add", H: b.T2}, {Op: "add", H: b.T1 + 1}}
 				x.Hold = rng.Intn(4)
@@ -342,7 +350,7 @@ func derive(b bcfg, tag string, pts []pt, full bool, rng *rand.Rand) []Scenario 
 				if rng.Intn(3) == 0 {
 					x.Acts = []Act{{Op: "cancel"}}
 				} else {
-					x.Acts = []Act{{Op: "add", H: b.T1 + 1 + rng.Int63n(b.Remote-b.T1)}}
+					x.Acts = []Act{{Op: "add", H: above(b, rng)}}
 					x.Hold = rng.Intn(3)
 				}
 			}
@@ -350,7 +358,7 @@ func derive(b bcfg, tag string, pts []pt, full bool, rng *rand.Rand) []Scenario 
 		}
 		start := []Act{{Op: "add", H: b.T1}}
 		if rng.Intn(3) == 0 {
-			start = append(start, Act{Op: "add", H: b.T1 + 1 + rng.Int63n(b.Remote-b.T1)})
+			start = append(start, Act{Op: "add", H: above(b, rng)})
 		}
 		mk("random", fmt.Sprintf("rnd%d", k), rules, start)
 	}
